@@ -158,7 +158,8 @@ def classify(case, impl, model, disc):
 LEVEL_TEXT = ("Proof: C06_gaps_are_consecutive + C06_start_order (the idle intervals are the gaps between start-ordered consecutive kernels), C06_gaps_nonneg (under "
               "non-overlap), C06_classification (three-way, exclusive, exhaustive, with the strictness of both comparisons), C06_launch_call (only a positively "
               "linked row counts as launch call), C06_telescope (categories add up to span minus busy time), C06_last_ends_last. Correspondence on every "
-              "(rank, stream, category) cell of get_idle_time_breakdown and the ratios, thresholds on gap boundaries, stream subsets.")
+              "(rank, stream, category) cell of get_idle_time_breakdown and the ratios, thresholds on gap boundaries, stream subsets."
+              " C06_resolution_independent: times and threshold multiplied by k > 0 multiply every category's idle time by k.")
 LEVEL_NOTE = ("Hand model of get_idle_time_breakdown/_analyze_idle_time_for_stream (category filter, join on index_correlation, shift(1), the two masks). "
               "Float division/rounding of the ratios not modelled (tolerance).")
 TECHNIQUE = "Coq proof (telescoping sum over start-ordered kernels, case analysis of the classification) + differential correspondence via vm_compute"
